@@ -264,6 +264,12 @@ class WaitConnAck(State):
     def run(self) -> None:
         self.set_wait_conn_ack_state(set_name=True)
 
+        if self.association.stop_requested:
+            #: The application does not want the connection any more and
+            #: nothing has been opened yet: there is nobody to send a DPR to.
+            self.set_closed_state()
+            return
+
         if self.association.is_connected():
             if self.association.transport.test_connection():
                 self.event_initiator_rcv_conn_ack()  
@@ -317,6 +323,13 @@ class WaitInitiatorCEA(State):
 
         if self.is_set_release_signal_from_peer():
             self.event_initiator_peer_disc()
+            return
+
+        if self.association.stop_requested:
+            #: The application does not want the connection any more and the
+            #: capabilities exchange has not completed: the transport is
+            #: simply given up, whether or not the peer ever answers.
+            self.set_closed_state()
             return
 
         if self.has_recv_queue_message():
